@@ -653,15 +653,27 @@ class DynamicBayesianNetwork(DAG):
             if not any(x.variable == temp_var for x in self.cpds):
                 if all(x[1] == parents[0][1] for x in parents):
                     if parents:
+                        # keep the source CPD's own evidence order (and state names),
+                        # shifted to the other slice
+                        shift = temp_var[1] - cpd.variable[1]
+                        evidence = [
+                            DynamicNode(var[0], var[1] + shift)
+                            for var in cpd.variables[1:]
+                        ]
                         evidence_card = cpd.cardinality[1:]
+                        state_names = {
+                            new: cpd.state_names[old]
+                            for new, old in zip([temp_var] + evidence, cpd.variables)
+                        }
                         new_cpd = TabularCPD(
                             temp_var,
                             cpd.variable_card,
                             cpd.values.reshape(
-                                cpd.variable_card, np.prod(evidence_card)
+                                cpd.variable_card, int(np.prod(evidence_card))
                             ),
-                            parents,
+                            evidence,
                             evidence_card,
+                            state_names=state_names,
                         )
                     else:
                         if cpd.get_evidence():
@@ -671,13 +683,21 @@ class DynamicBayesianNetwork(DAG):
                             new_cpd = TabularCPD(
                                 temp_var,
                                 cpd.variable_card,
-                                np.reshape(initial_cpd.values, (2, -1)),
+                                np.reshape(
+                                    initial_cpd.values, (cpd.variable_card, -1)
+                                ),
+                                state_names={
+                                    temp_var: cpd.state_names[cpd.variable]
+                                },
                             )
                         else:
                             new_cpd = TabularCPD(
                                 temp_var,
                                 cpd.variable_card,
-                                np.reshape(cpd.values, (2, -1)),
+                                np.reshape(cpd.values, (cpd.variable_card, -1)),
+                                state_names={
+                                    temp_var: cpd.state_names[cpd.variable]
+                                },
                             )
                     self.add_cpds(new_cpd)
             self.check_model()
